@@ -53,8 +53,10 @@ class Verifier:
                 self.errors.append(f"path budget {self.c.max_paths} exceeded")
                 break
             ctx = Ctx(dec)
-            for ax in self.axioms():
-                ctx.solver.add(ax)
+            ctx.full_feasibility = not self.c.ghost.get("light_feasibility", False)
+            if ctx.full_feasibility:
+                for ax in self.axioms():
+                    ctx.solver.add(ax)
             I = Interp(ctx, self)
             I.globals = {}
             I.ghost = {}
@@ -164,6 +166,11 @@ class Verifier:
             return tystr
         if tystr.startswith("@"):
             return self.make_shape(I, tystr[1:], hint)
+        if tystr == "=PyDict":
+            return PyDict({})
+        if tystr.startswith("=emptyset:"):
+            ety = parse_ty(tystr[10:])
+            return SSet(z3.K(sort_of(ety), z3.BoolVal(False)), ety)
         if tystr.startswith("="):
             return eval(tystr[1:], {"Ellipsis": Ellipsis})
         if tystr == "Opaque":
@@ -398,6 +405,8 @@ class Verifier:
             from .stmts import havoc_value
 
             for g in list(I.ghost):
+                if g.startswith("_iter") or (spec.ghost_modifies is not None and g not in spec.ghost_modifies):
+                    continue
                 I.ghost[g] = havoc_value(I, I.ghost[g], g)
         if fr.is_generator and any(isinstance(n, (ast.Yield, ast.YieldFrom)) for n in ast.walk(st)):
             self.havoc_trace(I, fr)
@@ -479,6 +488,12 @@ class Verifier:
     def on_setattr(self, I, base, attr, v, node):
         pass
 
+    def untracked(self, qual):
+        return set(self.c.ghost.get("untracked", ()))
+
+    def tracked_calls(self, qual):
+        return set(self.c.ghost.get("tracked_calls", ()))
+
     def on_stmt(self, I, st, env):
         """Statement-pattern hooks (DESIGN 2.2 'recognised idioms'); returns True when the hook executed the statement."""
         if isinstance(st, ast.While) and isinstance(st.test, ast.Constant) and st.test.value is True:
@@ -546,6 +561,8 @@ class Verifier:
 
             if cref.name in EXC_BASES:
                 return Obj(cref.name, {"args": tuple(args)})
+            if self.c.ghost.get("havoc_unknown_externals"):
+                return self.havoc_call(I, cref.qual, args, kwargs, node)
             raise Unsupported(f"construction of external class {cref.qual}")
         o = Obj(ci.qual)
         init = self.find_method(ci.qual, "__init__")
@@ -612,6 +629,10 @@ class Verifier:
         tstr = self.c.attrs.get(key) or self.default_policies.get("attrs", {}).get(key)
         if tstr is None:
             raise Unsupported(f"attribute {key} of abstract sort is not declared")
+        if callable(tstr):
+            return lambda I2, *a, **k: tstr(I2, [sv] + list(a), k, node)
+        if tstr == "Opaque":
+            return Opaque(key)
         ty = parse_ty(tstr)
         f = z3.Function(f"{sv.ty.key}_{attr}", sort_of(sv.ty), sort_of(ty))
         return unpack(I.ctx, f(sv.t), ty)
@@ -716,10 +737,34 @@ class Verifier:
                     return pol(I, args, kwargs, node)
                 if pol == "havoc":
                     return self.havoc_call(I, qual, args, kwargs, node)
+        if self.c.ghost.get("havoc_unknown_externals"):
+            return self.havoc_call(I, qual, args, kwargs, node)
         raise Unsupported(f"external call {qual} has no assumed contract (in {I.frame.qual})")
+
+    def may_raise(self, I, what):
+        if self.c.ghost.get("may_raise") and not self.in_contract_expr:
+            key = (getattr(I, "epoch", 0), tuple(id(h) for fr in I.frames for h in fr.handlers), len(I.frames))
+            if getattr(I, "raise_forked", None) != key:
+                I.raise_forked = key
+                if not I.ctx.choose():
+                    raise RaiseSig("UnknownError", info=[f"raised by {what}"])
 
     def havoc_call(self, I, what, args, kwargs, node):
         self.havoced.add(what)
+        hook0 = self.c.ghost.get("havoc_hook")
+        if hook0 is not None and not self.in_contract_expr:
+            r0 = hook0(I, what, args, kwargs, node)
+            if r0 is not _MISSING:
+                return r0
+        if False and self.c.ghost.get("may_raise") and not self.in_contract_expr:
+            # an uninterpreted call may raise.  Raising anywhere between two tracked events / try boundaries gives the
+            # same tracked behaviour, so one fork per such segment is complete for the event-order obligations.
+            key = (getattr(I, "epoch", 0), tuple(id(h) for fr in I.frames for h in fr.handlers), len(I.frames))
+            if getattr(I, "raise_forked", None) != key:
+                I.raise_forked = key
+                if not I.ctx.choose():
+                    raise RaiseSig("UnknownError", info=[f"raised by {what}"])
+        self.may_raise(I, what)
         hook = self.spec_ns.get("havoc_hook")
         if hook is not None:
             r = hook(I, what, args, kwargs, node)
